@@ -175,4 +175,23 @@ def _sse_script(rep):
     return rep["clause"] in res["failed"].get(0, [])
 
 
-REPLAYERS = {"sse_script": _sse_script, "http_seq": _http_seq, "host_case": _host_case, "lifecycle": _lifecycle, "stdio_out": _stdio_out, "framing": _framing, "gate_script": _gate_script, "version_runs": _version_runs, "handshake": _handshake, "handshake_server": _handshake_server, "dispatch_case": _dispatch_case, "session_ops": _session_ops, "errorclass_case": _errorclass_case, "errorclass_sets": _errorclass_sets}
+def _codec_value(rep):
+    from harness.props import codec
+    from harness.workers.codec_worker import untag
+    v = untag(rep["tree"])
+    bad = False
+    for enc, no in (("orjson", False), ("stdlib", True)):
+        t = codec.worker(no, {"op": "encode", "values": [rep["tree"]]})[0]
+        s = "".join(chr(c) for c in t["text"])
+        print(enc, repr(s)[:200])
+        if "\n" in s or "\r" in s or not t["ok"]:
+            bad = True
+        for dec, no2 in (("orjson", False), ("stdlib", True)):
+            d = codec.worker(no2, {"op": "decode", "texts": [[t["text"], False], [t["text"], True]]})
+            if not all(x["ok"] and x["tree"] == rep["tree"] for x in d):
+                print("  round trip fails under", dec)
+                bad = True
+    return bad
+
+
+REPLAYERS = {"codec_value": _codec_value, "sse_script": _sse_script, "http_seq": _http_seq, "host_case": _host_case, "lifecycle": _lifecycle, "stdio_out": _stdio_out, "framing": _framing, "gate_script": _gate_script, "version_runs": _version_runs, "handshake": _handshake, "handshake_server": _handshake_server, "dispatch_case": _dispatch_case, "session_ops": _session_ops, "errorclass_case": _errorclass_case, "errorclass_sets": _errorclass_sets}
